@@ -123,7 +123,7 @@ func c05Origins(w *World, v ssa.Value, depth int) (out []ssa.Value, ok bool) {
 		return []ssa.Value{v}, true
 	}
 	fn := p.Parent()
-	sites, closed := c05CallSites(w, fn)
+	sites, closed := c05SitesOf(w, fn)
 	if !closed || len(sites) == 0 {
 		// an entry point: the parameter itself is the origin
 		return []ssa.Value{v}, true
@@ -138,10 +138,10 @@ func c05Origins(w *World, v ssa.Value, depth int) (out []ssa.Value, ok bool) {
 		}
 	}
 	for _, s := range sites {
-		if idx < 0 || idx >= len(s.Call.Args) {
+		if idx < 0 || idx >= len(s.args) {
 			return nil, false
 		}
-		o, ok := c05Origins(w, s.Call.Args[idx], depth-1)
+		o, ok := c05Origins(w, s.args[idx], depth-1)
 		if !ok {
 			return nil, false
 		}
@@ -162,22 +162,27 @@ func c05Lift(w *World, label string, fn, R *ssa.Function, depth int) []string {
 	if depth <= 0 {
 		return nil
 	}
-	sites, closed := c05CallSites(w, fn)
+	sites, closed := c05SitesOf(w, fn)
 	if !closed {
 		return nil
 	}
 	var out []string
 	for _, s := range sites {
-		if len(s.Call.Args) != len(fn.Params) {
+		if len(s.args) != len(fn.Params) {
 			return nil
 		}
 		names := make([]string, len(fn.Params))
 		descs := make([]string, len(fn.Params))
 		for i, p := range fn.Params {
 			names[i] = p.Name()
-			descs[i] = desc(s.Call.Args[i])
+			descs[i] = desc(s.args[i])
+			if i == 0 && s.mk != nil && s.mk.Parent() != s.call.Parent() {
+				// the receiver of a dispatched call was converted in another function: its printed form belongs to
+				// that frame and cannot be rendered here (what is read through the receiver is followed on SSA values)
+				descs[i] = "recv?:" + p.Name()
+			}
 		}
-		up := c05Lift(w, substParams(label, names, descs), s.Parent(), R, depth-1)
+		up := c05Lift(w, substParams(label, names, descs), s.call.Parent(), R, depth-1)
 		if up == nil {
 			return nil
 		}
@@ -213,6 +218,54 @@ func (x *c05Carry) of(v ssa.Value, k int, depth int, seen map[ssa.Value]bool) (m
 		if call == nil {
 			return nil, false
 		}
+		// what the returns of the module function g deliver as idx-th result
+		viaReturns := func(g *ssa.Function) bool {
+			gi := x.w.Info(g)
+			n := 0
+			for _, b := range g.Blocks {
+				r, ok := blockTerm(b).(*ssa.Return)
+				if !ok || idx >= len(r.Results) {
+					continue
+				}
+				last := r.Results[len(r.Results)-1]
+				failing := isErrorType(last.Type()) && c05NonNilAt(gi, last, b)
+				s, ok := x.of(r.Results[idx], k, depth-1, seen)
+				if !ok {
+					if failing {
+						// a failing exit of the helper: its error is non-nil (the caller's error test, which
+						// result/validator-error requires on every success path, covers it), and the value
+						// delivered next to it is not used on a success path
+						continue
+					}
+					return false
+				}
+				for c := range s {
+					out[c] = true
+				}
+				n++
+			}
+			return n > 0
+		}
+		if call.Call.IsInvoke() {
+			// An interface call delivers the result of whichever method it dispatches to: of the implementation
+			// outside the module — then the call itself is the consultation and must be a target — or of an adapter
+			// method of the module (c05Arms), every return of which must hand on a target's result.
+			opaque := false
+			for _, a := range c05Arms(x.w, call) {
+				if a.fn == nil {
+					opaque = true
+				} else if !viaReturns(a.fn) {
+					return nil, false
+				}
+			}
+			if opaque || x.targets[call] {
+				if !x.targets[call] || idx != k {
+					return nil, false
+				}
+				out[call] = true
+			}
+			return out, len(out) > 0
+		}
 		if x.targets[call] {
 			if idx != k {
 				return nil, false
@@ -224,31 +277,10 @@ func (x *c05Carry) of(v ssa.Value, k int, depth int, seen map[ssa.Value]bool) (m
 		if g == nil || g.Blocks == nil || !x.w.IsProductFn(g) {
 			return nil, false
 		}
-		gi := x.w.Info(g)
-		n := 0
-		for _, b := range g.Blocks {
-			r, ok := blockTerm(b).(*ssa.Return)
-			if !ok || idx >= len(r.Results) {
-				continue
-			}
-			last := r.Results[len(r.Results)-1]
-			failing := isErrorType(last.Type()) && c05NonNilAt(gi, last, b)
-			s, ok := x.of(r.Results[idx], k, depth-1, seen)
-			if !ok {
-				if failing {
-					// a failing exit of the helper: its error is non-nil (the caller's error test, which
-					// result/validator-error requires on every success path, covers it), and the value
-					// delivered next to it is not used on a success path
-					continue
-				}
-				return nil, false
-			}
-			for c := range s {
-				out[c] = true
-			}
-			n++
+		if !viaReturns(g) {
+			return nil, false
 		}
-		return out, n > 0
+		return out, true
 	case *ssa.Phi:
 		if seen[t] {
 			return out, true
@@ -267,7 +299,7 @@ func (x *c05Carry) of(v ssa.Value, k int, depth int, seen map[ssa.Value]bool) (m
 	case *ssa.Parameter:
 		// what the helper receives is what its callers pass: all of them must be known
 		fn := t.Parent()
-		sites, closed := c05CallSites(x.w, fn)
+		sites, closed := c05SitesOf(x.w, fn)
 		if !closed || len(sites) == 0 {
 			return nil, false
 		}
@@ -278,10 +310,10 @@ func (x *c05Carry) of(v ssa.Value, k int, depth int, seen map[ssa.Value]bool) (m
 			}
 		}
 		for _, st := range sites {
-			if idx < 0 || idx >= len(st.Call.Args) {
+			if idx < 0 || idx >= len(st.args) {
 				return nil, false
 			}
-			s, ok := x.of(st.Call.Args[idx], k, depth-1, seen)
+			s, ok := x.of(st.args[idx], k, depth-1, seen)
 			if !ok {
 				return nil, false
 			}
@@ -498,10 +530,12 @@ type c05Frame struct {
 	at *ssa.BasicBlock
 }
 
-// c05Leaves enumerates the sources of v: through phis (any number of edges), up
-// through a helper's parameter to the arguments of all its call sites, and down
-// through a module call to the operands of the callee's returns.
-func c05Leaves(w *World, v ssa.Value, frames []c05Frame, depth int, seen map[ssa.Value]bool) (out []c05Leaf, ok bool) {
+// c05Leaves enumerates the sources of (the field `path` of) v: through phis (any number of edges), up through a
+// helper's parameter to the arguments of all its call sites (c05SitesOf: also the interface call that dispatches to an
+// adapter method), down through a module call to the operands of the callee's returns, and through a struct that is
+// filled in locally to what was stored into the field (c05CellLeaves). A value that cannot be followed further is its
+// own source when no field of it is asked for; ok=false otherwise.
+func c05Leaves(w *World, v ssa.Value, path []int, frames []c05Frame, depth int, seen map[c05SeenKey]bool) (out []c05Leaf, ok bool) {
 	if depth <= 0 {
 		return nil, false
 	}
@@ -516,21 +550,437 @@ func c05Leaves(w *World, v ssa.Value, frames []c05Frame, depth int, seen map[ssa
 	}
 	switch x := v.(type) {
 	case *ssa.Phi:
-		if seen[x] {
+		key := c05SeenKey{x, fmt.Sprint(path)}
+		if seen[key] {
 			return nil, true
 		}
-		seen[x] = true
+		seen[key] = true
 		for i, e := range x.Edges {
 			if e == v {
 				continue
 			}
-			l, ok := c05Leaves(w, e, with(c05Frame{x.Parent(), x.Block().Preds[i]}, true), depth, seen)
+			l, ok := c05Leaves(w, e, path, with(c05Frame{x.Parent(), x.Block().Preds[i]}, true), depth, seen)
 			if !ok {
 				return nil, false
 			}
 			out = append(out, l...)
 		}
 		return out, true
+	case *ssa.Parameter:
+		fn := x.Parent()
+		sites, closed := c05SitesOf(w, fn)
+		if !closed || len(sites) == 0 {
+			break
+		}
+		idx := -1
+		for i, q := range fn.Params {
+			if q == x {
+				idx = i
+			}
+		}
+		for _, s := range sites {
+			if idx < 0 || idx >= len(s.args) {
+				return nil, false
+			}
+			// the guards inside the helper are dropped: only what holds at the call site is kept
+			l, ok := c05Leaves(w, s.args[idx], path, []c05Frame{s.frameOf(idx)}, depth-1, seen)
+			if !ok {
+				return nil, false
+			}
+			out = append(out, l...)
+		}
+		return out, true
+	case *ssa.Call, *ssa.Extract:
+		call, k := callOf(v), 0
+		if e, isE := v.(*ssa.Extract); isE {
+			k = e.Index
+		}
+		if call == nil {
+			break
+		}
+		g := staticCallee(call)
+		if g == nil || g.Blocks == nil || !w.IsProductFn(g) {
+			break
+		}
+		n := 0
+		for _, b := range g.Blocks {
+			r, isRet := blockTerm(b).(*ssa.Return)
+			if !isRet || k >= len(r.Results) {
+				continue
+			}
+			l, ok := c05Leaves(w, r.Results[k], path, with(c05Frame{g, b}, false), depth-1, seen)
+			if !ok {
+				return nil, false
+			}
+			out = append(out, l...)
+			n++
+		}
+		return out, n > 0
+	case *ssa.Field:
+		if l, ok := c05Leaves(w, x.X, append([]int{x.Field}, path...), frames, depth, seen); ok {
+			return l, true
+		}
+	case *ssa.UnOp:
+		if x.Op != token.MUL {
+			break
+		}
+		// a load: of a field (path) of a struct that lives in a local cell or behind a pointer parameter
+		root, p2 := x.X, append([]int(nil), path...)
+		for {
+			fa, isFA := root.(*ssa.FieldAddr)
+			if !isFA {
+				break
+			}
+			p2 = append([]int{fa.Field}, p2...)
+			root = fa.X
+		}
+		if len(p2) > 0 {
+			if l, ok := c05CellLeaves(w, root, p2, x, frames, depth, seen); ok {
+				return l, true
+			}
+		}
+	}
+	if len(path) > 0 {
+		return nil, false
+	}
+	return []c05Leaf{{v, frames}}, true
+}
+
+type c05SeenKey struct {
+	v    ssa.Value
+	path string
+}
+
+// c05Before: a is executed before b on every path that reaches b (same function).
+func c05Before(a, b ssa.Instruction) bool {
+	if a.Block() == b.Block() {
+		return instrIndex(a) < instrIndex(b)
+	}
+	return a.Block().Dominates(b.Block())
+}
+
+// c05CellLeaves: what the field path[0].path[1]… of the struct behind the pointer root may hold when the instruction `at`
+// reads it. root is
+//
+//   - a local cell (Alloc) that does not escape (c05Confined): every value stored into the field, every struct value
+//     stored into the whole cell (its field is followed in turn) and — unless one of these stores is executed before
+//     `at` on every path — the zero value the cell is created with. This is a superset of what the field can hold at
+//     `at` (stores are not ordered against each other); the rules that use it require something of every member.
+//     A member that came from a store is selected at the end of the store's block (its frame): a path on which the
+//     field holds that value has passed the store;
+//   - a pointer parameter of a helper with a closed list of sites: the same question about what every site passes.
+func c05CellLeaves(w *World, root ssa.Value, path []int, at ssa.Instruction, frames []c05Frame, depth int, seen map[c05SeenKey]bool) (out []c05Leaf, ok bool) {
+	if depth <= 0 || len(path) == 0 {
+		return nil, false
+	}
+	repl := func(f c05Frame) []c05Frame {
+		n := append([]c05Frame(nil), frames...)
+		if len(n) > 0 {
+			n[len(n)-1] = f
+		} else {
+			n = append(n, f)
+		}
+		return n
+	}
+	switch r := root.(type) {
+	case *ssa.Alloc:
+		if !c05Confined(w, r, path[0]) || at.Parent() != r.Parent() {
+			return nil, false
+		}
+		covered := false
+		for _, ref := range *r.Referrers() {
+			switch y := ref.(type) {
+			case *ssa.Store:
+				l, ok := c05Leaves(w, y.Val, path, repl(c05Frame{r.Parent(), y.Block()}), depth-1, seen)
+				if !ok {
+					return nil, false
+				}
+				out = append(out, l...)
+				if c05Before(y, at) {
+					covered = true
+				}
+			case *ssa.FieldAddr:
+				if y.Field != path[0] {
+					continue
+				}
+				for _, u := range *y.Referrers() {
+					st, isStore := u.(*ssa.Store)
+					if !isStore {
+						continue
+					}
+					l, ok := c05Leaves(w, st.Val, path[1:], repl(c05Frame{r.Parent(), st.Block()}), depth-1, seen)
+					if !ok {
+						return nil, false
+					}
+					out = append(out, l...)
+					if c05Before(st, at) {
+						covered = true
+					}
+				}
+			}
+		}
+		if !covered {
+			t := r.Type()
+			for _, k := range path {
+				f := fieldOf(t, k)
+				if f == nil {
+					return nil, false
+				}
+				t = f.Type()
+			}
+			out = append(out, c05Leaf{ssa.NewConst(nil, t), frames})
+		}
+		return out, true
+	case *ssa.Parameter:
+		fn := r.Parent()
+		sites, closed := c05SitesOf(w, fn)
+		if !closed || len(sites) == 0 {
+			return nil, false
+		}
+		idx := -1
+		for i, q := range fn.Params {
+			if q == r {
+				idx = i
+			}
+		}
+		for _, s := range sites {
+			if idx < 0 || idx >= len(s.args) {
+				return nil, false
+			}
+			var where ssa.Instruction = s.call
+			if idx == 0 && s.mk != nil {
+				where = s.mk
+			}
+			l, ok := c05CellLeaves(w, s.args[idx], path, where, []c05Frame{s.frameOf(idx)}, depth-1, seen)
+			if !ok {
+				return nil, false
+			}
+			out = append(out, l...)
+		}
+		return out, true
+	}
+	return nil, false
+}
+
+// c05Confined: the field k of the local cell al is written only by stores the cell's referrers show: al is used for
+// nothing but loads and stores of the whole value and of its fields (the address of field k itself only by loads and
+// stores) — it is not handed to a call, not captured, not stored anywhere. A cell whose address is converted to an
+// interface (an adapter created as `&T{…}`) is accepted when T is an unexported struct type of the module and no
+// instruction of the module writes field k of a T, or a whole T, through any other pointer: whoever receives the
+// interface can reach the field only through such an instruction.
+func c05Confined(w *World, al *ssa.Alloc, k int) bool {
+	if al.Referrers() == nil {
+		return false
+	}
+	viaIface := false
+	for _, ref := range *al.Referrers() {
+		switch y := ref.(type) {
+		case *ssa.DebugRef:
+		case *ssa.UnOp:
+			if y.Op != token.MUL {
+				return false
+			}
+		case *ssa.Store:
+			if y.Addr != ssa.Value(al) {
+				return false
+			}
+		case *ssa.FieldAddr:
+			if y.Field != k {
+				continue // another field: no pointer arithmetic leads from it to field k
+			}
+			if y.Referrers() == nil {
+				return false
+			}
+			for _, u := range *y.Referrers() {
+				switch z := u.(type) {
+				case *ssa.DebugRef:
+				case *ssa.UnOp:
+					if z.Op != token.MUL {
+						return false
+					}
+				case *ssa.Store:
+					if z.Addr != ssa.Value(y) {
+						return false
+					}
+				default:
+					return false
+				}
+			}
+		case *ssa.MakeInterface:
+			viaIface = true
+		default:
+			return false
+		}
+	}
+	if !viaIface {
+		return true
+	}
+	pt, ok := al.Type().(*types.Pointer)
+	if !ok {
+		return false
+	}
+	named, ok := types.Unalias(pt.Elem()).(*types.Named)
+	if !ok || named.Obj().Exported() || named.Obj().Pkg() == nil || !w.IsProductPkg(named.Obj().Pkg().Path()) {
+		return false
+	}
+	isPtrT := func(t types.Type) bool {
+		p, ok := t.Underlying().(*types.Pointer)
+		return ok && types.Identical(p.Elem(), named)
+	}
+	for _, g := range w.Funcs {
+		for _, b := range g.Blocks {
+			for _, in := range b.Instrs {
+				st, ok := in.(*ssa.Store)
+				if !ok {
+					continue
+				}
+				switch a := st.Addr.(type) {
+				case *ssa.FieldAddr:
+					if a.Field == k && isPtrT(a.X.Type()) && a.X != ssa.Value(al) {
+						return false
+					}
+				default:
+					if isPtrT(st.Addr.Type()) && st.Addr != ssa.Value(al) {
+						return false
+					}
+				}
+			}
+		}
+	}
+	return true
+}
+
+// c05CellOrigin follows v while it has exactly one origin: a field read from a local copy of a struct value (a cell
+// written by one store of the whole value and by no store to that field), the field of a struct value, a by-value
+// parameter of a function all of whose known sites pass the same value. It returns the struct value reached and the field path read from
+// it: v is, whenever it is evaluated, the content of that field of that value.
+func c05CellOrigin(w *World, v ssa.Value, path []int) (ssa.Value, []int) {
+	path = append([]int(nil), path...)
+	for step := 0; step < 8; step++ {
+		switch x := v.(type) {
+		case *ssa.Field:
+			path = append([]int{x.Field}, path...)
+			v = x.X
+			continue
+		case *ssa.UnOp:
+			if x.Op != token.MUL {
+				return v, path
+			}
+			fa, ok := x.X.(*ssa.FieldAddr)
+			if !ok {
+				return v, path
+			}
+			al, ok := fa.X.(*ssa.Alloc)
+			if !ok || !c05Confined(w, al, fa.Field) {
+				return v, path
+			}
+			var whole []*ssa.Store
+			fieldStores := 0
+			for _, ref := range *al.Referrers() {
+				switch y := ref.(type) {
+				case *ssa.Store:
+					whole = append(whole, y)
+				case *ssa.FieldAddr:
+					if y.Field != fa.Field {
+						continue
+					}
+					for _, u := range *y.Referrers() {
+						if _, isStore := u.(*ssa.Store); isStore {
+							fieldStores++
+						}
+					}
+				case *ssa.MakeInterface:
+					return v, path
+				}
+			}
+			if fieldStores != 0 || len(whole) != 1 || !c05Before(whole[0], x) {
+				return v, path
+			}
+			path = append([]int{fa.Field}, path...)
+			v = whole[0].Val
+			continue
+		case *ssa.Parameter:
+			if len(path) == 0 {
+				return v, path
+			}
+			fn := x.Parent()
+			sites, closed := c05SitesOf(w, fn)
+			if !closed || len(sites) == 0 {
+				return v, path
+			}
+			idx := -1
+			for i, q := range fn.Params {
+				if q == x {
+					idx = i
+				}
+			}
+			// one site, or several that pass the very same value (an interface call reached by several conversions)
+			for _, s := range sites {
+				if idx < 0 || idx >= len(s.args) || s.args[idx] != sites[0].args[idx] {
+					return v, path
+				}
+			}
+			v = sites[0].args[idx]
+			continue
+		}
+		return v, path
+	}
+	return v, path
+}
+
+// ---- interface calls that dispatch into the module -------------------------------------------
+//
+// The deprecated client may be consulted through an adapter: a type of the module that implements the
+// context-aware validator interface by calling the client, so that the revocation function performs one interface
+// call where it had two. Which method such a call runs is decided by the value in the interface. c05Arms follows
+// the receiver backwards on SSA values (phis, the returns of a selecting helper, a parameter fed by all call sites) to the
+// conversions that produced it: a value of a module type with a declared method of that name is an adapter arm (the
+// call runs that method: a static call in effect), anything else — a field that holds whatever the caller
+// configured — is the opaque arm: the consultation of the validator itself.
+
+type c05Arm struct {
+	fn   *ssa.Function      // adapter arm: the method of the module the call dispatches to
+	mk   *ssa.MakeInterface // adapter arm: the conversion that put the module value into the interface
+	leaf ssa.Value          // opaque arm: the interface value as far as it could be followed
+}
+
+func c05IfaceLeaves(w *World, v ssa.Value, depth int, seen map[ssa.Value]bool) []ssa.Value {
+	if depth <= 0 || seen[v] {
+		if seen[v] {
+			return nil
+		}
+		return []ssa.Value{v}
+	}
+	switch x := v.(type) {
+	case *ssa.Phi:
+		seen[v] = true
+		var out []ssa.Value
+		for _, e := range x.Edges {
+			out = append(out, c05IfaceLeaves(w, e, depth, seen)...)
+		}
+		return out
+	case *ssa.ChangeInterface:
+		return c05IfaceLeaves(w, x.X, depth, seen)
+	case *ssa.Call, *ssa.Extract:
+		call, k := callOf(v), 0
+		if e, isE := v.(*ssa.Extract); isE {
+			k = e.Index
+		}
+		if call == nil || call.Call.IsInvoke() {
+			break
+		}
+		g := staticCallee(call)
+		if g == nil || g.Blocks == nil || !w.IsProductFn(g) {
+			break
+		}
+		seen[v] = true
+		var out []ssa.Value
+		for _, b := range g.Blocks {
+			if r, isRet := blockTerm(b).(*ssa.Return); isRet && k < len(r.Results) {
+				out = append(out, c05IfaceLeaves(w, r.Results[k], depth-1, seen)...)
+			}
+		}
+		return out
 	case *ssa.Parameter:
 		fn := x.Parent()
 		sites, closed := c05CallSites(w, fn)
@@ -543,43 +993,437 @@ func c05Leaves(w *World, v ssa.Value, frames []c05Frame, depth int, seen map[ssa
 				idx = i
 			}
 		}
+		seen[v] = true
+		var out []ssa.Value
 		for _, s := range sites {
 			if idx < 0 || idx >= len(s.Call.Args) {
+				return []ssa.Value{v}
+			}
+			out = append(out, c05IfaceLeaves(w, s.Call.Args[idx], depth-1, seen)...)
+		}
+		return out
+	}
+	return []ssa.Value{v}
+}
+
+var (
+	c05ArmsMu   sync.Mutex
+	c05ArmsMemo = map[*ssa.Call][]c05Arm{}
+)
+
+func c05Arms(w *World, call *ssa.Call) (arms []c05Arm) {
+	if call == nil || !call.Call.IsInvoke() {
+		return nil
+	}
+	c05ArmsMu.Lock()
+	m, ok := c05ArmsMemo[call]
+	c05ArmsMu.Unlock()
+	if ok {
+		return m
+	}
+	defer func() {
+		c05ArmsMu.Lock()
+		c05ArmsMemo[call] = arms
+		c05ArmsMu.Unlock()
+	}()
+	for _, l := range c05IfaceLeaves(w, call.Call.Value, 4, map[ssa.Value]bool{}) {
+		if isNilConst(l) {
+			continue // a call on the nil interface panics: it delivers nothing
+		}
+		mk, ok := l.(*ssa.MakeInterface)
+		if !ok {
+			arms = append(arms, c05Arm{leaf: l})
+			continue
+		}
+		var fn *ssa.Function
+		if sel := w.Prog.MethodSets.MethodSet(mk.X.Type()).Lookup(call.Call.Method.Pkg(), call.Call.Method.Name()); sel != nil {
+			fn = w.Prog.MethodValue(sel)
+		}
+		if fn == nil || fn.Synthetic != "" || fn.Blocks == nil || !w.IsProductFn(fn) {
+			arms = append(arms, c05Arm{leaf: l})
+			continue
+		}
+		arms = append(arms, c05Arm{fn: fn, mk: mk})
+	}
+	return arms
+}
+
+// c05ConsultsOutside: the interface call may run an implementation that is not an adapter method of the module (or
+// its receiver could not be followed to anything at all).
+func c05ConsultsOutside(w *World, call *ssa.Call) bool {
+	arms := c05Arms(w, call)
+	for _, a := range arms {
+		if a.fn == nil {
+			return true
+		}
+	}
+	return len(arms) == 0
+}
+
+// c05Callees: the product functions fn reaches by static calls and by interface calls that dispatch to an adapter
+// method of the module (c05Arms), fn first.
+func c05Callees(w *World, fn *ssa.Function) []*ssa.Function {
+	seen := map[*ssa.Function]bool{}
+	var order []*ssa.Function
+	var rec func(f *ssa.Function)
+	rec = func(f *ssa.Function) {
+		if f == nil || seen[f] || f.Blocks == nil || !w.IsProductFn(f) {
+			return
+		}
+		seen[f] = true
+		order = append(order, f)
+		for _, c := range allCalls(f) {
+			if g := staticCallee(c); g != nil {
+				rec(g)
+			} else if call, ok := c.(*ssa.Call); ok && call.Call.IsInvoke() {
+				for _, a := range c05Arms(w, call) {
+					rec(a.fn)
+				}
+			}
+		}
+		for _, a := range f.AnonFuncs {
+			rec(a)
+		}
+	}
+	rec(fn)
+	return order
+}
+
+// c05Site: one way a function is entered: a static call, or an interface call that dispatches to it (mk: the
+// conversion its receiver came from). args is aligned with the callee's parameters (receiver first).
+type c05Site struct {
+	call *ssa.Call
+	args []ssa.Value
+	mk   *ssa.MakeInterface
+}
+
+// frameOf: the function and block in which the idx-th argument is evaluated.
+func (s c05Site) frameOf(idx int) c05Frame {
+	if idx == 0 && s.mk != nil {
+		return c05Frame{s.mk.Parent(), s.mk.Block()}
+	}
+	return c05Frame{s.call.Parent(), s.call.Block()}
+}
+
+// c05SitesOf: the sites through which fn is entered, and whether the list is complete: the static call sites of a
+// function that is never used as a value and cannot be reached through an interface (c05CallSites), or — for a method of
+// an unexported type of the module that is reached through an interface — the static sites and the interface calls that
+// every conversion of a value of the type to an interface flows to (c05AdapterSites).
+func c05SitesOf(w *World, fn *ssa.Function) ([]c05Site, bool) {
+	sites, closed := c05CallSites(w, fn)
+	if !closed {
+		if as, ok := c05AdapterSites(w, fn); ok {
+			return as, true
+		}
+	}
+	out := make([]c05Site, len(sites))
+	for i, s := range sites {
+		out[i] = c05Site{call: s, args: s.Call.Args}
+	}
+	return out, closed
+}
+
+type c05AdapterMemo struct {
+	sites  []c05Site
+	closed bool
+}
+
+var (
+	c05AdapterMu      sync.Mutex
+	c05AdapterSitesOf = map[*ssa.Function]c05AdapterMemo{}
+)
+
+// c05AdapterSites: all the ways the method M of an unexported, package-level, non-interface type T of the module is
+// entered. M runs only when
+//
+//	(1) it is called statically: every such call in the module is listed (a call from a synthetic wrapper — a promoted
+//	    method of a struct that embeds T — or a use of M as a function value leaves the list open; other packages cannot
+//	    name T), or
+//	(2) an interface call finds a value of M's receiver type in the interface. Such an interface value is created by
+//	    a conversion (MakeInterface) of a value of that type, which only code that can hold a T performs: the module
+//	    (every conversion is found by scanning it) or code outside it that was handed a T or *T as such (no T, *T is an
+//	    argument of a call that leaves the module — checked). From each conversion the interface value is followed
+//	    forwards: through phis, interface-to-interface conversions, into a module function it is an argument of, out
+//	    of a function with a closed list of call sites that returns it; it may be compared and be the receiver of
+//	    interface calls. Any other use (stored, captured, passed out of the module, asserted to another interface)
+//	    leaves the list open. The interface calls reached whose method is M's are the dispatch sites; the receiver M
+//	    sees there is the converted value, the other parameters are the call's arguments.
+func c05AdapterSites(w *World, M *ssa.Function) (sites []c05Site, closed bool) {
+	c05AdapterMu.Lock()
+	if m, ok := c05AdapterSitesOf[M]; ok {
+		c05AdapterMu.Unlock()
+		return m.sites, m.closed
+	}
+	c05AdapterMu.Unlock()
+	defer func() {
+		if !closed {
+			sites = nil
+		}
+		c05AdapterMu.Lock()
+		c05AdapterSitesOf[M] = c05AdapterMemo{sites, closed}
+		c05AdapterMu.Unlock()
+	}()
+	if M == nil || M.Blocks == nil || M.Parent() != nil || M.Synthetic != "" || !w.IsProductFn(M) || M.Signature.Recv() == nil || M.Object() == nil {
+		return nil, false
+	}
+	recvT := M.Signature.Recv().Type()
+	base := recvT
+	if p, ok := base.(*types.Pointer); ok {
+		base = p.Elem()
+	}
+	named, ok := types.Unalias(base).(*types.Named)
+	if !ok || named.Obj().Exported() || named.Obj().Pkg() == nil || named.Obj().Parent() != named.Obj().Pkg().Scope() || named.TypeParams().Len() > 0 {
+		return nil, false
+	}
+	if _, isIface := named.Underlying().(*types.Interface); isIface {
+		return nil, false
+	}
+	isT := func(t types.Type) bool {
+		if p, ok := t.Underlying().(*types.Pointer); ok {
+			t = p.Elem()
+		}
+		return types.Identical(t, named)
+	}
+	// a struct that embeds T promotes M; a field or a variable of type T, or an exported function that returns one, could
+	// hand a T as such to another package
+	scope := named.Obj().Pkg().Scope()
+	for _, n := range scope.Names() {
+		switch o := scope.Lookup(n).(type) {
+		case *types.TypeName:
+			if st, ok := o.Type().Underlying().(*types.Struct); ok {
+				for i := 0; i < st.NumFields(); i++ {
+					if isT(st.Field(i).Type()) {
+						return nil, false
+					}
+				}
+			}
+		case *types.Var:
+			if isT(o.Type()) {
 				return nil, false
 			}
-			// the guards inside the helper are dropped: only what holds at the call site is kept
-			l, ok := c05Leaves(w, s.Call.Args[idx], []c05Frame{{s.Parent(), s.Block()}}, depth-1, seen)
-			if !ok {
-				return nil, false
+		}
+	}
+	for _, g := range w.Funcs {
+		if g.Parent() == nil && token.IsExported(g.Name()) {
+			for i := 0; i < g.Signature.Results().Len(); i++ {
+				if isT(g.Signature.Results().At(i).Type()) {
+					return nil, false
+				}
 			}
-			out = append(out, l...)
 		}
-		return out, true
-	case *ssa.Call, *ssa.Extract:
-		call, k := callOf(v), 0
-		if e, isE := v.(*ssa.Extract); isE {
-			k = e.Index
+	}
+	hasM := func(t types.Type) bool {
+		ms := w.Prog.MethodSets.MethodSet(t)
+		for i := 0; i < ms.Len(); i++ {
+			if ms.At(i).Obj() == types.Object(M.Object()) {
+				return true
+			}
 		}
-		g := staticCallee(call)
-		if call == nil || g == nil || g.Blocks == nil || !w.IsProductFn(g) {
-			break
+		return false
+	}
+	// The synthetic functions the compiler derives from M (the wrapper that gives *T the method of T, a bound-method
+	// closure): they call M, and are entered only through a conversion of the other receiver type (excluded below) or
+	// as function values (any reference to them leaves the list open).
+	derived := map[ssa.Value]bool{ssa.Value(M): true}
+	for _, g := range w.Funcs {
+		if g != M && g.Synthetic != "" && g.Object() != nil && g.Object() == M.Object() {
+			derived[g] = true
 		}
-		n := 0
+	}
+	var convs []*ssa.MakeInterface
+	for _, g := range w.Funcs {
+		if g != M && derived[g] {
+			continue
+		}
 		for _, b := range g.Blocks {
-			r, isRet := blockTerm(b).(*ssa.Return)
-			if !isRet || k >= len(r.Results) {
+			for _, in := range b.Instrs {
+				if ci, ok := in.(ssa.CallInstruction); ok {
+					com := ci.Common()
+					callee := com.StaticCallee()
+					if !com.IsInvoke() && callee != nil && derived[callee] {
+						call, isCall := in.(*ssa.Call)
+						if !isCall || callee != M || g.Synthetic != "" {
+							return nil, false
+						}
+						sites = append(sites, c05Site{call: call, args: com.Args})
+					}
+					_, builtin := com.Value.(*ssa.Builtin)
+					leaves := !builtin && (com.IsInvoke() || callee == nil || callee.Blocks == nil || !w.IsProductFn(callee))
+					for _, a := range com.Args {
+						if derived[a] || (leaves && isT(a.Type())) {
+							return nil, false
+						}
+					}
+					continue
+				}
+				for _, op := range in.Operands(nil) {
+					if op != nil && *op != nil && derived[*op] {
+						return nil, false
+					}
+				}
+				switch x := in.(type) {
+				case *ssa.MakeClosure:
+					if wf, ok := x.Fn.(*ssa.Function); ok && wf.Synthetic != "" && strings.HasPrefix(wf.Name(), M.Name()+"$") {
+						return nil, false // bound-method wrapper
+					}
+				case *ssa.MakeInterface:
+					if isT(x.X.Type()) && hasM(x.X.Type()) {
+						if !types.Identical(x.X.Type(), recvT) {
+							return nil, false // dispatched through a synthetic wrapper
+						}
+						convs = append(convs, x)
+					}
+				}
+			}
+		}
+	}
+	for _, mk := range convs {
+		mk := mk
+		seen := map[ssa.Value]bool{}
+		work := []ssa.Value{mk}
+		for len(work) > 0 {
+			v := work[len(work)-1]
+			work = work[:len(work)-1]
+			if seen[v] {
 				continue
 			}
-			l, ok := c05Leaves(w, r.Results[k], with(c05Frame{g, b}, false), depth-1, seen)
-			if !ok {
+			seen[v] = true
+			if v.Referrers() == nil {
 				return nil, false
 			}
-			out = append(out, l...)
-			n++
+			for _, ref := range *v.Referrers() {
+				switch y := ref.(type) {
+				case *ssa.DebugRef, *ssa.BinOp:
+				case *ssa.Phi:
+					work = append(work, y)
+				case *ssa.ChangeInterface:
+					work = append(work, y)
+				case *ssa.Return:
+					h := y.Parent()
+					hs, hClosed := c05CallSites(w, h)
+					if !hClosed {
+						return nil, false
+					}
+					for i, rv := range y.Results {
+						if rv != v {
+							continue
+						}
+						for _, s := range hs {
+							if len(y.Results) == 1 {
+								work = append(work, s)
+								continue
+							}
+							if s.Referrers() == nil {
+								continue
+							}
+							for _, u := range *s.Referrers() {
+								if e, isE := u.(*ssa.Extract); isE && e.Index == i {
+									work = append(work, e)
+								}
+							}
+						}
+					}
+				case ssa.CallInstruction:
+					com := y.Common()
+					if com.IsInvoke() && com.Value == v {
+						for _, a := range com.Args {
+							if a == v {
+								return nil, false
+							}
+						}
+						if com.Method.Name() != M.Name() {
+							continue // runs another method of T
+						}
+						call, isCall := ref.(*ssa.Call)
+						if !isCall || len(com.Args)+1 != len(M.Params) {
+							return nil, false
+						}
+						dup := false
+						for _, s := range sites {
+							if s.call == call && s.mk == mk {
+								dup = true
+							}
+						}
+						if !dup {
+							sites = append(sites, c05Site{call: call, args: append([]ssa.Value{mk.X}, com.Args...), mk: mk})
+						}
+						continue
+					}
+					g := com.StaticCallee()
+					if com.IsInvoke() || g == nil || g.Blocks == nil || !w.IsProductFn(g) || len(com.Args) != len(g.Params) {
+						return nil, false
+					}
+					for i, a := range com.Args {
+						if a == v {
+							work = append(work, g.Params[i])
+						}
+					}
+				case *ssa.Store:
+					// an operand of a formatting call of package fmt (`fmt.Sprint(x)`, `fmt.Errorf("…%v", x)`): by its
+					// documentation fmt calls no method of an operand but Format, GoString, Error and String
+					switch M.Name() {
+					case "Format", "GoString", "Error", "String":
+						return nil, false
+					}
+					if y.Val != v || !c05FmtOperandCell(y.Addr) {
+						return nil, false
+					}
+				default:
+					return nil, false
+				}
+			}
 		}
-		return out, n > 0
 	}
-	return []c05Leaf{{v, frames}}, true
+	return sites, true
+}
+
+// c05FmtOperandCell: addr is an element of an array the compiler built for the variadic operands of a call into
+// package fmt: the array is used for nothing but storing its elements and the slice handed to that call.
+func c05FmtOperandCell(addr ssa.Value) bool {
+	ia, ok := addr.(*ssa.IndexAddr)
+	if !ok {
+		return false
+	}
+	arr, ok := ia.X.(*ssa.Alloc)
+	if !ok || arr.Referrers() == nil {
+		return false
+	}
+	nCalls := 0
+	for _, ref := range *arr.Referrers() {
+		switch x := ref.(type) {
+		case *ssa.DebugRef:
+		case *ssa.IndexAddr:
+			if x.Referrers() == nil {
+				return false
+			}
+			for _, u := range *x.Referrers() {
+				if st, isStore := u.(*ssa.Store); !isStore || st.Addr != ssa.Value(x) {
+					return false
+				}
+			}
+		case *ssa.Slice:
+			if x.Referrers() == nil {
+				return false
+			}
+			for _, u := range *x.Referrers() {
+				if _, isDbg := u.(*ssa.DebugRef); isDbg {
+					continue
+				}
+				ci, isCall := u.(ssa.CallInstruction)
+				if !isCall {
+					return false
+				}
+				g := ci.Common().StaticCallee()
+				if g == nil || g.Pkg == nil || g.Pkg.Pkg.Path() != "fmt" {
+					return false
+				}
+				nCalls++
+			}
+		default:
+			return false
+		}
+	}
+	return nCalls > 0
 }
 
 // ---- index tags -------------------------------------------------------------------
@@ -786,8 +1630,9 @@ func c05ChainIndex(v ssa.Value, chain ssa.Value, depth int) ssa.Value {
 //   - the two validator calls by the interface method they invoke (names of notation-core-go);
 //   - the aggregator A by its signature (c05IsAggregator), aCall the one call to it from outside the aggregator;
 //   - the candidates: the functions of the verifier package whose first result is an object with an error field (the
-//     ValidationResult) and that reach — themselves or through static calls into the module, at whatever boundary
-//     helpers were cut — exactly one call of each validator interface and the aggregator call. Top is the candidate no
+//     ValidationResult) and that reach — themselves, through static calls into the module at whatever boundary helpers
+//     were cut, or through an interface call that dispatches to an adapter method of the module (c05Callees) — exactly
+//     one call of each validator interface that may run an implementation outside the module, and the aggregator call. Top is the candidate no
 //     other candidate reaches; Cands lists Top and the candidates below it (an entry that delegates to an inner function
 //     after some checks), top first.
 type c05Anch struct {
@@ -801,7 +1646,7 @@ type c05Anch struct {
 // between: the functions fn reaches (itself included) outside the aggregator.
 func (an *c05Anch) between(w *World, fn *ssa.Function) []*ssa.Function {
 	var out []*ssa.Function
-	for _, g := range w.moduleCallees(fn) {
+	for _, g := range c05Callees(w, fn) {
 		if !an.inA[g] {
 			out = append(out, g)
 		}
@@ -824,7 +1669,7 @@ func c05FindAnchors(w *World) (*c05Anch, int) {
 		if r := fn.Signature.Results(); r.Len() == 0 || errFieldOf(r.At(0).Type()) < 0 {
 			continue
 		}
-		callees := w.moduleCallees(fn)
+		callees := c05Callees(w, fn)
 		var acs []*ssa.Call
 		for _, g := range callees {
 			if c05IsAggregator(w, g) {
@@ -855,11 +1700,17 @@ func c05FindAnchors(w *World) (*c05Anch, int) {
 				if !ok {
 					continue
 				}
+				// an interface call that can only run adapter methods of the module consults nobody itself: the
+				// consultations are the calls those methods make
 				switch calleeName(call) {
 				case "invoke:core/revocation.Revocation.Validate":
-					vs = append(vs, call)
+					if c05ConsultsOutside(w, call) {
+						vs = append(vs, call)
+					}
 				case "invoke:core/revocation.Validator.ValidateContext":
-					vcs = append(vcs, call)
+					if c05ConsultsOutside(w, call) {
+						vcs = append(vcs, call)
+					}
 				}
 			}
 		}
@@ -1515,6 +2366,19 @@ func c05EdgeSaysNonNil(cond ssa.Value, truth bool, v ssa.Value) bool {
 	return o != nil && o == v && (bo.Op == token.NEQ) == truth
 }
 
+// c05ParentOf: the function whose frame the value belongs to (nil for constants, globals, functions).
+func c05ParentOf(v ssa.Value) *ssa.Function {
+	switch x := v.(type) {
+	case *ssa.Parameter:
+		return x.Parent()
+	case *ssa.FreeVar:
+		return x.Parent()
+	case ssa.Instruction:
+		return x.Parent()
+	}
+	return nil
+}
+
 func c05Desc(v ssa.Value) string {
 	if v == nil {
 		return "?"
@@ -1622,18 +2486,21 @@ func c05Augment(w *World, fn *ssa.Function, ex *ExitSum) *ExitSum {
 	return &out
 }
 
-// ---- the nil tests of the receiver fields computed by a predicate helper ------------------------
+// ---- the nil tests of the receiver fields computed by a helper -----------------------------------
 //
 // `if !v.canCheck() { fail }` with `func (v *verifier) canCheck() bool { return v.a != nil || v.b != nil }`: the edge on
 // which the predicate says "there is a validator" is not an edge labelled NE(field,nil). What the both-nil obligation
 // needs is only that the edge cannot be taken when both fields are nil. That is decided by abstract interpretation of
-// the predicate (engine E6: every branch not decided by abstract values forks both ways, anything unknown is Top):
+// the helper (engine E6: every branch not decided by abstract values forks both ways, anything unknown is Top):
 // loads of the two fields — recognised by their printed form rendered in the caller's frame — evaluate to nil; if every
 // return then yields the same boolean constant, the opposite edge of the caller's branch is infeasible with both fields
-// nil and is removed. The predicate must not store to the fields (no Store to a field address in it).
+// nil and is removed. The same holds for a helper that hands back the validator it selected instead of a boolean
+// (`val := v.pick(); if val == nil { fail }`): if every return yields nil when both fields are nil, the edge on which
+// the selected value is not nil is infeasible. The helper must not store to the fields (no Store to a field address in
+// it other than into a struct it has just allocated, which is no field of the receiver).
 
 // c05PredicateEdges: the edges of fi.Fn that cannot be taken when the loads printed as one of recvs are nil, with the
-// number of distinct fields the deciding predicate read.
+// number of distinct fields the deciding helper read.
 func c05PredicateEdges(w *World, fi *FnInfo, recvs map[string]bool) map[edgeKey]int {
 	out := map[edgeKey]int{}
 	for _, b := range fi.Fn.Blocks {
@@ -1651,16 +2518,47 @@ func c05PredicateEdges(w *World, fi *FnInfo, recvs map[string]bool) map[edgeKey]
 			flip = !flip
 			cond = u.X
 		}
-		call, ok := cond.(*ssa.Call)
-		if !ok {
+		same := func(l string) string { return l }
+		var truth bool // the value of iff.Cond when both fields are nil
+		n := 0
+		switch x := cond.(type) {
+		case *ssa.Call, *ssa.Extract:
+			// the helper's boolean verdict: its only result, or one of several (`val, ok := v.pick()`)
+			call, k := callOf(x), 0
+			if e, isE := x.(*ssa.Extract); isE {
+				k = e.Index
+			}
+			val, known, nr := c05EvalHelper(w, call, k, same, recvs, 3)
+			if !known || nr == 0 || val.Kind != aBool {
+				continue
+			}
+			truth, n = val.B != flip, nr
+		case *ssa.BinOp:
+			if x.Op != token.EQL && x.Op != token.NEQ {
+				continue
+			}
+			var o ssa.Value
+			if isNilConst(x.Y) {
+				o = x.X
+			} else if isNilConst(x.X) {
+				o = x.Y
+			}
+			call, k := callOf(o), 0
+			if e, isE := o.(*ssa.Extract); isE {
+				k = e.Index
+			}
+			if o == nil || call == nil {
+				continue
+			}
+			val, known, nr := c05EvalHelper(w, call, k, same, recvs, 3)
+			if !known || nr == 0 || val.Kind != aNil {
+				continue
+			}
+			// the compared value is nil: `o == nil` holds
+			truth, n = (x.Op == token.EQL) != flip, nr
+		default:
 			continue
 		}
-		val, known, n := c05EvalPredicate(w, call, func(l string) string { return l }, recvs, 3)
-		if !known || n == 0 {
-			continue
-		}
-		// cond is val != flip: the edge for the other truth value is infeasible
-		truth := val != flip
 		if truth {
 			out[edgeKey{b.Index, 1}] = n
 		} else {
@@ -1670,22 +2568,37 @@ func c05PredicateEdges(w *World, fi *FnInfo, recvs map[string]bool) map[edgeKey]
 	return out
 }
 
-// c05EvalPredicate evaluates the boolean module function called by call under the assumption that the loads whose
-// printed form, rendered in the frame the assumption is stated in (up), is in recvs are nil. known=false: not one value.
-func c05EvalPredicate(w *World, call *ssa.Call, up func(string) string, recvs map[string]bool, depth int) (val, known bool, nread int) {
+// c05EvalHelper evaluates the k-th result (a boolean or a nilable value) of the module function called by call under
+// the assumption that the loads whose printed form, rendered in the frame the assumption is stated in (up), is in recvs
+// are nil. known: every return yields the same abstract value, a boolean constant or nil.
+func c05EvalHelper(w *World, call *ssa.Call, k int, up func(string) string, recvs map[string]bool, depth int) (val AVal, known bool, nread int) {
+	if call == nil || call.Call.IsInvoke() {
+		return AVal{}, false, 0
+	}
 	g := staticCallee(call)
-	if depth <= 0 || g == nil || g.Blocks == nil || !w.IsProductFn(g) || len(call.Call.Args) != len(g.Params) || g.Signature.Results().Len() != 1 || !isBoolType(g.Signature.Results().At(0).Type()) {
-		return false, false, 0
+	if depth <= 0 || g == nil || g.Blocks == nil || !w.IsProductFn(g) || len(call.Call.Args) != len(g.Params) || k >= g.Signature.Results().Len() {
+		return AVal{}, false, 0
 	}
 	for _, b := range g.Blocks {
 		for _, in := range b.Instrs {
 			switch x := in.(type) {
 			case *ssa.Store:
-				if _, isField := x.Addr.(*ssa.FieldAddr); isField {
-					return false, false, 0
+				if fa, isField := x.Addr.(*ssa.FieldAddr); isField {
+					// a field of a struct the helper allocated itself is no field of the receiver
+					var root ssa.Value = fa
+					for {
+						f, ok := root.(*ssa.FieldAddr)
+						if !ok {
+							break
+						}
+						root = f.X
+					}
+					if al, ok := root.(*ssa.Alloc); !ok || al.Parent() != g {
+						return AVal{}, false, 0
+					}
 				}
 			case *ssa.Defer, *ssa.Go:
-				return false, false, 0
+				return AVal{}, false, 0
 			}
 		}
 	}
@@ -1710,36 +2623,67 @@ func c05EvalPredicate(w *World, call *ssa.Call, up func(string) string, recvs ma
 				}
 			}
 		case *ssa.Call:
-			if v, known, n := c05EvalPredicate(w, x, toTop, recvs, depth-1); known && n > 0 {
-				return AVal{Kind: aBool, B: v}, true
+			if _, isTuple := x.Type().(*types.Tuple); !isTuple {
+				if v, known, n := c05EvalHelper(w, x, 0, toTop, recvs, depth-1); known && n > 0 {
+					return v, true
+				}
 			}
 		}
 		return AVal{}, false
 	}
 	outs := ip.Run(g.Blocks[0], nil, map[ssa.Value]AVal{}, nil, nil)
 	if ip.Overflow {
-		return false, false, 0
+		return AVal{}, false, 0
 	}
 	first := true
 	for _, o := range outs {
 		if o.Panic {
 			continue
 		}
-		if o.Ret == nil || len(o.Ret.Results) != 1 {
-			return false, false, 0
+		if o.Ret == nil || k >= len(o.Ret.Results) {
+			return AVal{}, false, 0
 		}
-		a := ip.val(o.Ret.Results[0], o.Env)
-		if a.Kind != aBool {
-			return false, false, 0
+		a := ip.val(o.Ret.Results[k], o.Env)
+		if a.Kind != aBool && a.Kind != aNil {
+			return AVal{}, false, 0
 		}
 		if first {
-			val, first = a.B, false
-		} else if val != a.B {
-			return false, false, 0
+			val, first = a, false
+		} else if val != a {
+			return AVal{}, false, 0
 		}
 	}
 	if first {
-		return false, false, 0
+		return AVal{}, false, 0
 	}
 	return val, true, len(read)
+}
+
+// c05ReceiverLoads: where the validator the interface call consults comes from — the sources (c05Leaves) of the call's
+// receiver, without the nil constant and without the adapters of the module (an adapter is not a validator the caller
+// configured: the call it makes in turn is examined on its own).
+func c05ReceiverLoads(w *World, call *ssa.Call) ([]ssa.Value, bool) {
+	leaves, ok := c05Leaves(w, call.Call.Value, nil, []c05Frame{{call.Parent(), call.Block()}}, 6, map[c05SeenKey]bool{})
+	if !ok {
+		return nil, false
+	}
+	var out []ssa.Value
+	for _, lf := range leaves {
+		if isNilConst(lf.v) {
+			continue
+		}
+		if mk, isMk := lf.v.(*ssa.MakeInterface); isMk {
+			adapter := false
+			for _, a := range c05Arms(w, call) {
+				if a.mk == mk {
+					adapter = true
+				}
+			}
+			if adapter {
+				continue
+			}
+		}
+		out = append(out, lf.v)
+	}
+	return out, len(out) > 0
 }
